@@ -22,6 +22,28 @@ Fixpoint as_qs_aux (l : list val) : option (list (Z * Z * Z)) :=
 Definition as_qs (v : val) : option (list (Z * Z * Z)) :=
   match v with VL l => as_qs_aux l | _ => None end.
 
+(** a session step: [0,s,e,m] CountPrefixes, [1,maxSize] ShardByPrefix, [2] FirstDiffBits *)
+Definition as_step (v : val) : option (sstep * spec_step) :=
+  match v with
+  | VL [VZ 0; VZ s; VZ e; VZ m] => Some (QCount s e m, SCount s e m)
+  | VL [VZ 1; VZ ms] => Some (QShard ms, SShard ms)
+  | VL [VZ 2] => Some (QFdb, SFdb)
+  | _ => None
+  end.
+Fixpoint as_steps_aux (l : list val) : option (list (sstep * spec_step)) :=
+  match l with
+  | [] => Some []
+  | v :: t => match as_step v, as_steps_aux t with Some q, Some qs => Some (q :: qs) | _, _ => None end
+  end.
+Definition as_steps (v : val) : option (list (sstep * spec_step)) :=
+  match v with VL l => as_steps_aux l | _ => None end.
+Definition c16_step_dom (keys : list (list Z)) (st : sstep) : bool :=
+  match st with
+  | QCount s e m => c16_cp_dom keys s e m
+  | QShard ms => 1 <=? ms
+  | QFdb => true
+  end.
+
 (** the run on a counter-described key set *)
 Definition c16_counter_run (a : list val) : val :=
   match a with
@@ -129,6 +151,28 @@ Definition ops_C16 : list opdef := [
      op_spec := fun_spec (fun a => match a with
        | [keys; qs] => match as_zss keys, as_qs qs with
            | Some keys, Some qs => VL [VL (map vpairZL (spec_queries keys qs)); VZ 1]
+           | _, _ => VBad end
+       | _ => VBad end) |};
+  (* sb := New(keys); a list of steps on that object and on the SAME key slice: sb.CountPrefixes,
+     ShardByPrefix(keys, maxSize) (result not observed), FirstDiffBits(keys); then the state flag *)
+  {| op_name := "sigbits.SigBits/session";
+     op_run := fun a => match a with
+       | [keys; steps] => match as_zss keys, as_steps steps with
+           | Some keys, Some steps =>
+               if forallb (fun st => c16_step_dom keys (fst st)) steps
+                  && keys_okb keys && strict_ascb keys && negb (zlen keys =? 0) then
+                 match New keys with
+                 | Some sb => match run_session keys sb (map fst steps) with
+                              | Some rs => VL [VL (map vpairZL rs); VZ 1]
+                              | None => VPanic end
+                 | None => VPanic
+                 end
+               else VBad
+           | _, _ => VBad end
+       | _ => VBad end;
+     op_spec := fun_spec (fun a => match a with
+       | [keys; steps] => match as_zss keys, as_steps steps with
+           | Some keys, Some steps => VL [VL (map vpairZL (spec_session keys (map snd steps))); VZ 1]
            | _, _ => VBad end
        | _ => VBad end) |}
 ].
